@@ -1222,7 +1222,15 @@ func (c *Client) connOpen(u *base.URL) error {
 					tlsConfig.ServerName = host
 				}
 
-				nconn = tls.Client(nconn, tlsConfig)
+				// perform the handshake now, within the dial timeout:
+				// otherwise a server that never answers it blocks the first write forever
+				tconn := tls.Client(nconn, tlsConfig)
+				err = tconn.HandshakeContext(dialCtx)
+				if err != nil {
+					nconn.Close()
+					return err
+				}
+				nconn = tconn
 			}
 		}
 	}
